@@ -93,8 +93,14 @@ def run(ctx):
         conf = os.path.join(root, "canvas.conf")
         with open(conf, "w") as f:
             f.write('canvas-name "c"\ncanvas-dir "%s"\nstep "a" command { "true" }\nkeep %d\n%s' % (root, keep_conf, "" if attic_on else "keep-attic no\n"))
+        lockkind = "none"
         if running:
             open(os.path.join(root, ".running"), "w").write(os.path.join(root, running) + "\n")
+            lockkind = "running"
+        elif rng.random() < 0.3:
+            # a lock file that names nothing: empty (a crash between truncate and write), or stale
+            lockkind = rng.choice(["empty", "stale"])
+            open(os.path.join(root, ".running"), "w").write("" if lockkind == "empty" else os.path.join(root, "2019-01-01.1") + "\n")
         before = snapshot(root)
         args = ["-m", "canvas", "-C", conf] + ([str(count_arg)] if count_arg is not None else [])
         rc, out, err = sh.run_script("robsd-clean", args, extra=dict(ROBSDCONF=conf))
@@ -113,7 +119,7 @@ def run(ctx):
         now = [x for x in invs if os.path.isdir(os.path.join(root, x))]
         if rc != 0 or sorted(now) != sorted(want_kept):
             ctx.violation("after robsd-clean (retention %d, running %s) the root holds %s, expected %s" % (n, running, sorted(now, reverse=True), sorted(want_kept, reverse=True)),
-                          dict(invocations=listing, keep_conf=keep_conf, count_arg=count_arg, attic=attic_on, rc=rc, strays=strays,
+                          dict(invocations=listing, keep_conf=keep_conf, count_arg=count_arg, attic=attic_on, rc=rc, strays=strays, lock_file=lockkind,
                                links={s0: os.readlink(os.path.join(root, s0)) for s0 in strays if os.path.islink(os.path.join(root, s0))},
                                stdout=out.decode(errors="replace")[-400:], stderr=err.decode(errors="replace")[-400:]))
         for x in want_removed:
